@@ -189,6 +189,21 @@ CHECKS = {
              "closed under the global context (no axioms). Float arithmetic compared with tolerance 1e-5 (power) / 1e-4 (PAPR model); the +1e-8 inside "
              "x/(|x|+1e-8) is not modelled. The PAPR limit is demanded of signals on which it is attainable by clipping within 20 dB of the peak.",
         technique="Coq proof (ordered-field reasoning on rationals, induction over lists and over the clipping loop) + kernel-evaluated correspondence on implementation output + layout/family sweep on the implementation"),
+    "C09": dict(
+        text="Coq theorems composing the component results: for every code whose published matrices pass the kernel-evaluated checkers "
+             "code_pair_ok and min_distance_ge (2t+1), every message and every error word of weight <= t placed between encoder and decoder, the bit-level "
+             "chain encode -> transport -> syndrome-correct -> extract returns the message (ideal transport is the case e = 0); for every labelled "
+             "constellation with distinct points and labels and pairwise squared distance >= D, a received point with 4|y-p|^2 < D is decided as p "
+             "(Cauchy-Schwarz over the rationals), whole displaced sequences demodulate to the transmitted bits; stage order of ChannelCodeModel. "
+             "The hypotheses are evaluated by the kernel on every code and table used; the bit-level chain model and the model's hard decisions of "
+             "displaced symbols are compared with ChannelCodeModel assembled from real components.",
+        design="6/C09",
+        note="Trusted: Coq kernel + vm_compute; hand-written model Pipe/Chain.v on top of the C01/C02/C05/C06 models; certificates from the untrusted "
+             "harness, only checked. All theorems closed under the global context (no axioms). The composition theorem is instantiated for syndrome "
+             "decoding; the other decoders (brute-force ML, Berlekamp-Massey, Reed majority, Wagner, BP, min-sum, SC, polar BP) enter through their "
+             "own properties (C02, C10, C11) and are exercised here on the implementation only. Decoders that reject several blocks per row are "
+             "paired only with modems whose bits per symbol divide n.",
+        technique="Coq proof (assume/guarantee composition of proved component theorems; ordered-field geometry on rationals) + kernel-evaluated hypotheses on published matrices/tables + model/implementation correspondence on ChannelCodeModel runs"),
     "C10": dict(
         text="Coq theorems over exact rationals: the Wagner decoder returns, for EVERY non-empty real input (ties included), an even-parity "
              "word of maximum correlation (ML for the single-parity-check code); flooding BP / min-sum on ANY parity-check matrix returns the "
